@@ -39,6 +39,11 @@ mixed and empty types, every operator applied at the nilled element (add a decla
 text, comment / PI (not a fault), xsi:nil false / garbage, xsi:type admissible / inadmissible, bad attribute), judged by the
 rule "a nilled element has no character or element children".
 
+Family `vc` (value constraints): attributes and simple elements of 11 kinds of simple type (int, decimal, date, boolean,
+NCName, enumeration, QName, NOTATION, list, union, language) x {no constraint, default, fixed}, present in the valid document,
+damaged with a lexically invalid value / a different valid value (a fault iff fixed) / another lexical form of the same value
+(never a fault) / a QName with an unmapped prefix; QName prefixes declared on the root or on the element that uses them.
+
 Fault localisation as a theorem (`single_fault_localised`, `observed_fault_localised`, Props/C19.lean): the
 validator is modelled as a compositional `Val` (Model/Localise.lean).  The run ties it to the code as follows:
   * `validation_hook` (public API) records the declaration used for every element; the errors located at every
@@ -261,7 +266,40 @@ NIL_XSD = '''<xs:schema xmlns:xs="http://www.w3.org/2001/XMLSchema">
  </xs:sequence></xs:complexType></xs:element></xs:schema>'''
 
 
+# attributes and simple elements of every kind of simple type x value constraint (none / default / fixed):
+# name -> (type, a valid value [the fixed / default value], another lexical form of the SAME value or None, a different valid
+# value, a lexically invalid value)
+VC_TYPES = {'int': ('xs:int', '7', '07', '8', 'x7'), 'dec': ('xs:decimal', '1.50', '1.5', '2.5', '1,5'),
+            'date': ('xs:date', '2020-01-31', None, '2021-01-31', '2020-13-45'), 'bool': ('xs:boolean', 'true', '1', 'false', 'maybe'),
+            'ncname': ('xs:NCName', 'abc', ' abc ', 'abd', '1 bad'), 'enum': ('Enum', 'x', None, 'y', 'z'),
+            'qname': ('xs:QName', 'k:metre', 'k2:metre', 'k:foot', 'not a qname'), 'notation': ('Not', 'jpeg', None, 'png', 'gif'),
+            'list': ('IntList', '1 2 3', '1  2 3', '1 2', '1 x'), 'union': ('U', '5', None, 'true', 'zz'),
+            'lang': ('xs:language', 'en', None, 'fr', '!!')}
+VC_KINDS = {'n': '', 'd': ' default="%s"', 'f': ' fixed="%s"'}
+
+
+def attr_xsd() -> str:
+    attrs = ''.join(f'<xs:attribute name="a_{t}_{v}" type="{VC_TYPES[t][0]}"{VC_KINDS[v] % VC_TYPES[t][1] if v != "n" else ""}/>'
+                    for t in VC_TYPES for v in VC_KINDS)
+    elems = ''.join(f'<xs:element name="e_{t}_{v}" type="{VC_TYPES[t][0]}" minOccurs="0"'
+                    f'{VC_KINDS[v] % VC_TYPES[t][1] if v != "n" else ""}/>' for t in VC_TYPES for v in VC_KINDS)
+    return f'''<xs:schema xmlns:xs="http://www.w3.org/2001/XMLSchema" xmlns:k="urn:kinds">
+ <xs:notation name="jpeg" public="image/jpeg"/><xs:notation name="png" public="image/png"/>
+ <xs:simpleType name="Enum"><xs:restriction base="xs:token"><xs:enumeration value="x"/><xs:enumeration value="y"/></xs:restriction></xs:simpleType>
+ <xs:simpleType name="Not"><xs:restriction base="xs:NOTATION"><xs:enumeration value="jpeg"/><xs:enumeration value="png"/></xs:restriction></xs:simpleType>
+ <xs:simpleType name="IntList"><xs:list itemType="xs:int"/></xs:simpleType>
+ <xs:simpleType name="U"><xs:union memberTypes="xs:int xs:boolean"/></xs:simpleType>
+ <xs:element name="r"><xs:complexType><xs:sequence>
+   <xs:element name="item" maxOccurs="unbounded"><xs:complexType><xs:simpleContent><xs:extension base="xs:decimal">
+     <xs:attribute name="req" type="xs:NCName" use="required"/>{attrs}</xs:extension></xs:simpleContent></xs:complexType></xs:element>
+   {elems}
+ </xs:sequence></xs:complexType></xs:element></xs:schema>'''
+
+
 def schema(form: str):
+    if form == 'attr' and form not in _SCHEMAS:
+        import xmlschema
+        _SCHEMAS[form] = xmlschema.XMLSchema(attr_xsd())
     if form in ('nil10', 'nil11') and form not in _SCHEMAS:
         import xmlschema
         _SCHEMAS[form] = (xmlschema.XMLSchema10 if form == 'nil10' else xmlschema.XMLSchema11)(NIL_XSD)
@@ -1977,6 +2015,83 @@ def clone_raw(d: dict) -> dict:
     return out
 
 
+# ------------------------------------------------------------------------------------------------
+# value constraints: attributes (and simple elements) of every kind of simple type — int, decimal, date, boolean, NCName,
+# enumeration, QName, NOTATION, list, union, language — declared without constraint / with a default / with a fixed value,
+# PRESENT in the valid document, damaged with (a) a lexically invalid value, (b) a different valid value (a fault iff the
+# declaration is fixed), (c) another lexical form of the same value (never a fault), (d) for QNames an unmapped prefix.
+# Independent rule: the value must be valid for the type, and equal to the fixed value in the value space when one is declared.
+def vc_family(ctx: Ctx, drv: Optional[Driver]) -> None:
+    rng = ctx.rng
+    reqs: list = []
+    pend: list = []
+    names = [(t, v) for t in VC_TYPES for v in VC_KINDS]
+    for di in range(ctx.pick(14, 100)):
+        items = []
+        for _ in range(rng.randrange(2, 4)):
+            a = {'req': 'a'}
+            for t, v in rng.sample(names, rng.randrange(2, 7)):
+                val, same = VC_TYPES[t][1], VC_TYPES[t][2]
+                a[f'a_{t}_{v}'] = same if same is not None and rng.random() < 0.3 else val
+            items.append({'n': 'item', 'a': a, 't': '1.5', 'c': []})
+        elems = []
+        for t, v in names:                       # the schema's sequence order
+            if rng.random() < 0.2:
+                val, same = VC_TYPES[t][1], VC_TYPES[t][2]
+                # (an element with a fixed QName written with another prefix of the same namespace is refused by the
+                # library: a value-space question of C03, not generated here)
+                txt = same if same is not None and t != 'qname' and rng.random() < 0.3 else val
+                elems.append({'n': f'e_{t}_{v}', 'a': {}, 't': txt, 'c': []})
+        doc = {'n': 'r', 'a': {}, 't': None, 'c': items + elems}
+        k_on_item = rng.random() < 0.4               # the prefixes of the QName values declared on the element that uses them
+
+        def ser(d: dict) -> str:
+            def one(n: dict, root: bool) -> str:
+                decl = ' xmlns:k="urn:kinds" xmlns:k2="urn:kinds"' if (root and not k_on_item) or \
+                    (not root and k_on_item and (any('qname' in x for x in n['a']) or 'qname' in n['n'])) else ''
+                attrs = ''.join(f' {x}="{y}"' for x, y in n['a'].items())
+                return f"<{n['n']}{decl}{attrs}>{n['t'] or ''}{''.join(one(c, False) for c in n['c'])}</{n['n']}>"
+            return one(d, True)
+        base = {'doc': f'vc-{di}', 'form': 'attr', 'layout': 'none', 'comments': False}
+        vx = ser(doc)
+        for parser in ('etree', 'lxml'):
+            run_case(ctx, dict(base, fault=None, parser=parser, xml=vx), vx, 'attr', parser, None, reqs, pend)
+        ops = []                                       # (what, fault kind or None, mutated, damaged)
+        for i, n in enumerate(doc['c']):
+            targets = [(x, x.split('_')[1], x.split('_')[2]) for x in n['a'] if x.startswith('a_')] if n['n'] == 'item' \
+                else [(None, n['n'].split('_')[1], n['n'].split('_')[2])]
+            for aname, t, v in targets:
+                _ty, val, same, other, bad = VC_TYPES[t]
+                vals = [('a lexically invalid value', bad, True), ('a different valid value', other, v == 'f')]
+                if same is not None and not (aname is None and t == 'qname'):
+                    vals.append(('another lexical form of the same value', same if n['a'].get(aname, n['t']) != same else val, False))
+                if t == 'qname':
+                    vals.append(('a QName with an unmapped prefix', 'zz:metre', True))
+                for what, newv, is_fault in vals:
+                    m = clone(doc)
+                    if aname is None:
+                        m['c'][i]['t'] = newv
+                    else:
+                        m['c'][i]['a'][aname] = newv
+                    where = 'attribute' if aname else 'element'
+                    ops.append((f"{where} {t}/{ {'n': 'no constraint', 'd': 'default', 'f': 'fixed'}[v]}: {what}",
+                                ('bad attribute value' if aname else 'bad value') if is_fault else None, m, (i,)))
+        for what, kind, m, damaged in ops:
+            xml = ser(m)
+            ctx.count(f'value-constraint family: {what} -> ' + ('invalid' if kind else 'still valid'))
+            for parser in ('etree', 'lxml'):
+                case = dict(base, fault=kind, operator=what, node=list(damaged), damaged=list(damaged), parser=parser, xml=xml)
+                if kind is None:
+                    ctx.case(case, False, tag=f'value-constraint family: not a fault (still valid)/{parser}')
+                    run_case(ctx, case, xml, 'attr', parser, None, reqs, pend)
+                else:
+                    run_case(ctx, case, xml, 'attr', parser, damaged, reqs, pend)
+        if len(ctx.failures) >= 40:
+            break
+    if drv is not None:
+        compare(ctx, drv, reqs, pend)
+
+
 def renders(ctx: Ctx, drv: Optional[Driver]) -> None:
     """get_prefixed_qname on random maps against the model; a rendered name must read back to the tag"""
     from xmlschema.utils.qnames import get_prefixed_qname
@@ -2036,6 +2151,7 @@ def run(ctx: Ctx, driver_ok: bool) -> None:
     inh11_family(ctx, drv)
     cm_family(ctx, drv)
     nil_family(ctx, drv)
+    vc_family(ctx, drv)
     renders(ctx, drv)
     lazy_paths(ctx, drv)
     ctx.extra['explanation'] = ('every fault of the catalogue at every node (documents <= 40 nodes exhaustively, 40 seeded '
